@@ -35,9 +35,10 @@ def ensure_registered():
       if self.on_call is not None:
         self.on_call(rec)
       if fault == 'ioerror':
-        raise IOError('injected fault at backend call %d (%s %s)' % (idx, kind, metric))
+        # the same text every time, as a backend that stays down produces (EIO from the same device)
+        raise IOError(5, 'Input/output error (injected)')
       if fault == 'exception':
-        raise BackendFault('injected fault at backend call %d (%s %s)' % (idx, kind, metric))
+        raise BackendFault('backend unavailable (injected)')
       return rec
 
     def exists(self, metric):
